@@ -89,6 +89,7 @@ def parse_script(script_text, start_line_number=1):
 
             # Add the function definition statement
             function_label_def_depth = len(label_defs)
+            function_line = (line, start_line_number + ix_line)
             function_def = {
                 'function': {
                     'name': match_function_begin.group('name'),
@@ -406,6 +407,10 @@ def parse_script(script_text, start_line_number=1):
         def_key = next(iter(label_def))
         def_ = label_def[def_key]
         raise BareScriptParserError(f"Missing end{def_key} statement", def_['line'], 1, def_['lineNumber'])
+
+    # Dangling function definition?
+    if function_def is not None:
+        raise BareScriptParserError('Missing endfunction statement', function_line[0], 1, function_line[1])
 
     return script
 
